@@ -6,6 +6,7 @@ BOUNDS = {
     "thorough": "as quick with strings of up to 3 bytes.",
 }
 ASSUMPTIONS = [
+    "the 64-bit obligations (wide/*) are decided by cvc5 1.0 with --solve-bv-as-int=sum (bit-blasting back ends time out on the decimal arithmetic); the 8-bit obligations by z3",
     "reflect.Type/reflect.Value are the engine's go/types-backed environment model (engine/reflect.go)",
     "decimal formatting of symbolic integers is a contract stub (digit bytes constrained to denote the value, fork on sign and digit count)", "Outside: floats, time values and formats, generated type universes, omitzero/omitempty fixed points",
 ]
@@ -23,5 +24,5 @@ def obligations(tier):
         for st in (False, True):
             if q and st and part != 0:
                 continue
-            L.append(ob("wide/part=%d/stringify=%d" % (part, st), ".", "VerifC04Wide", [part, st], covers=["decoded"], timeout_ms=120000, max_seconds=1200))
+            L.append(ob("wide/part=%d/stringify=%d" % (part, st), ".", "VerifC04Wide", [part, st], covers=["decoded"], solver="cvc5-int", timeout_ms=60000, max_seconds=1200))
     return L
